@@ -289,6 +289,32 @@ ALIASES = [
     ('copy.deepcopy-after-ref-targets-in-dict', 'deep', "copy.deepcopy({'t': _targets(o), 'o': o})['o']"),
     ('pg.clone-after-ref-targets-in-list', 'deep', 'pg.clone(_targets(o) + [o], deep=True)[-1]'),
 ]
+# Scoped overrides of the protection flags active while cloning: the clone must
+# get the flags of the original, not the ones the scope simulates (compared
+# after the scope is left).  pg.allow_partial(..) and pg.enable_type_check(False)
+# are left out on purpose: their documented purpose is to change how values
+# *constructed inside the scope* are validated, so a clone made inside them
+# legitimately differs in partial flag / schema binding of typed children and
+# the statement gives no oracle for it.
+SCOPES = ['pg.as_sealed(True)', 'pg.as_sealed(False)',
+          'pg.allow_writable_accessors(True)', 'pg.allow_writable_accessors(False)',
+          'pg.notify_on_change(False)', 'pg.track_origin(True)',
+          'pg.as_sealed(True), pg.allow_writable_accessors(False)',
+          'pg.as_sealed(False), pg.allow_writable_accessors(True)']
+
+
+def _scoped_aliases(tier, subject_index):
+  """(alias, depth, statement binding c); quick: one depth per subject/scope."""
+  out = []
+  for i, ctx in enumerate(SCOPES):
+    name = ctx.replace('pg.', '').replace(', ', '+')
+    for j, (depth, expr) in enumerate(BASES + [('shallow', 'copy.copy(o)'), ('deep', 'copy.deepcopy(o)')]):
+      if tier == 'quick' and j != (subject_index + i) % 4:
+        continue
+      out.append((f'in-scope:{name}', depth, f'with {ctx}:\n  c = {expr}'))
+  return out
+
+
 # `.copy()` is the container protocol's shallow copy; the statement names only
 # the clone family, so only equality / sharing / tree checks apply to it.
 COPY_METHOD = ('.copy()', 'shallow', 'o.copy()')
@@ -550,7 +576,7 @@ def drv_clone_fidelity(tier, seed):
             'differing flags, typed/partial/sealed Objects, Ref, non-symbolic mutable leaves, '
             'nested nodes, Functor, DNA, hyper values) x clone(deep=False/True) and '
             f'{len(ALIASES)} aliases (+ .copy()); every node pair compared')
-  for label, src in subs:
+  for subject_index, (label, src) in enumerate(subs):
     base_fail = {}
     base_raised = set()
     try:
@@ -600,32 +626,34 @@ def drv_clone_fidelity(tier, seed):
                  _wit(src, [f'c = {expr}', a]))
       if not fails:
         rec.case(f'clone/{depth}', (label, depth), True)
-    for alias, depth, expr in ALIASES + [COPY_METHOD]:
+    for alias, depth, expr in ALIASES + [COPY_METHOD] + _scoped_aliases(tier, subject_index):
       is_copy = alias == '.copy()'
       env = build(src)
       if is_copy and not isinstance(env['o'], (pg.Dict, pg.List)):
         continue
       before = _snap(_root_of(env))
+      stmt = expr if expr.startswith('with ') else f'c = {expr}'
       try:
-        _exec(f'c = {expr}', env)
+        _exec(stmt, env)
       except Exception as e:  # pylint: disable=broad-except
         if depth in base_raised:
           after = _snap(_root_of(env))
           if before != after:
             rec.case(f'alias:{alias}/raises-and-modifies-original', (label, depth), False,
                      f'[{label}] {expr} raised {type(e).__name__} and changed the original: ' + _diff(before, after),
-                     _wit(src, ["b = _snap(root if 'root' in dir() else o)", f'try: c = {expr}\nexcept Exception: pass',
+                     _wit(src, ["b = _snap(root if 'root' in dir() else o)", 'try:\n  ' + stmt.replace('\n', '\n  ') + '\nexcept Exception: pass',
                                 "assert _snap(root if 'root' in dir() else o) == b"], snap=True))
           continue
-        rec.case(f'alias:{alias}/raises', (label, depth), False,
-                 f'[{label}] {expr} raised {type(e).__name__}: {e}', _wit(src, [f'c = {expr}']))
+        rec.case(f'alias:{alias}/raises' + (f'/{_tname(env["o"])}' if alias.startswith('in-scope:') else ''),
+                 (label, depth), False,
+                 f'[{label}] {expr} raised {type(e).__name__}: {e}', _wit(src, [stmt]))
         continue
       o, c = env['o'], env['c']
       after = _snap(_root_of(env))
       if before != after:
         rec.case(f'alias:{alias}/modifies-original', (label, depth), False,
                  f'[{label}] {expr}: ' + _diff(before, after),
-                 _wit(src, ["b = _snap(root if 'root' in dir() else o)", f'c = {expr}',
+                 _wit(src, ["b = _snap(root if 'root' in dir() else o)", stmt,
                             "assert _snap(root if 'root' in dir() else o) == b"], snap=True))
       fails = [f for f in fidelity(o, c, depth, flags=not is_copy)
                if (f[0], f[1], f[2]) not in base_fail.get(depth, set())]
@@ -638,7 +666,7 @@ def drv_clone_fidelity(tier, seed):
           continue
         seen.add(cid)
         rec.case(cid, (label, depth, keys), False, f'[{label}] {expr}: {msg}',
-                 _wit(src, [f'c = {expr}', a]))
+                 _wit(src, [stmt, a]))
       if not fails and before == after:
         rec.case(f'alias:{alias}', (label, depth), True)
     _flip_cases(rec, label, src, base_fail, base_raised, tier)
@@ -660,12 +688,17 @@ def _flip_cases(rec, label, src, base_fail, base_raised, tier):
     o0 = build(src)['o']
   except Exception:  # pylint: disable=broad-except
     return
-  nodes = [keys for kind, keys, _, _ in _pairs(o0, o0) if kind == 'node']
-  exprs = [x for x in (FLIP_EXPRS[:2] if tier == 'quick' else FLIP_EXPRS) if x[0] not in base_raised]
-  for keys in nodes:
+  quick = tier == 'quick'
+  nodes = sorted((keys for kind, keys, _, _ in _pairs(o0, o0) if kind == 'node'), key=lambda k: (len(k), repr(k)))
+  if quick:
+    nodes = nodes[:10]   # the nodes nearest to the root
+  for ni, keys in enumerate(nodes):
     nav = _nav('o', keys)
-    for flag, attr, setter in (('seal', 'is_sealed', 'seal'),
-                               ('accessor', 'accessor_writable', 'set_accessor_writable')):
+    for fi, (flag, attr, setter) in enumerate((('seal', 'is_sealed', 'seal'),
+                                               ('accessor', 'accessor_writable', 'set_accessor_writable'))):
+      # quick: one clone expression per (node, flag), rotating over the four.
+      exprs = [x for j, x in enumerate(FLIP_EXPRS)
+               if x[0] not in base_raised and (not quick or j == (2 * ni + fi) % 4 or (not keys and j < 2))]
       for depth, expr in exprs:
         env = build(src)
         _exec(f'_n = {nav}', env)
